@@ -155,5 +155,8 @@ def run(ctx):
     rule_compositions(ctx)
     rule_processors(ctx)
     tables.rule_tables(ctx, 'R01.3')
+    from . import ias15
+    ias15.rule_closing_series(ctx, 'R01.5')
+    ias15.rule_predictor(ctx, 'R01.5')
     ctx.not_decided.append('the order of accuracy beyond first-order consistency and symmetry; adaptive step control (IAS15, BS, TRACE accept/reject); '
                            'user ODE coupling; error constants')
